@@ -55,7 +55,7 @@ REPO_FAMILIES = [("factory", "sa"), ("factory_square", "sa"), ("noisy_factory", 
                  ("xos", "sam"), ("xos3", "sam"), ("xs", "sam"), ("oxs", "sam"),
                  ("k_budget_generator", "sam"), ("covg_fn_generator", "sam")]
 OWN_FAMILIES = [("own_sa_int", "sa"), ("own_sa_dyadic", "sa"), ("own_additive", "sa"), ("own_sa_neg", "sa"),
-                ("own_sam", "sam"), ("own_pow2", "sa"), ("own_wide_range", "sa")]
+                ("own_sam", "sam"), ("own_pow2", "sa"), ("own_wide_range", "sa"), ("own_tiny", "sa")]
 
 # what each property's tie compares (weakest sufficient tie, DESIGN 6): the solver / undo clauses do not depend on
 # the observation or on `done`; the linear environment passes the inner `done` through (checked against the real
@@ -140,6 +140,10 @@ def own_game(fam: str, n: int, rnd):
         pert = G.sa_game(n, rnd, "int")
         v = [Fraction(2 ** 40) * G.popcount(c) ** 2 + 64 * pert[c] for c in range(N)]
         v[0] = Fraction(0)
+    elif fam == "own_tiny":
+        # an integer superadditive game times 2^-45 (values ~1e-13, exact in float64): normalisation, gaps and "done" are scale-free,
+        # absolute tolerances are not
+        v = [x * Fraction(1, 2 ** 45) for x in G.sa_game(n, rnd, "int")]
     elif fam == "own_pow2":
         # integer superadditive game whose normalised values are dyadic (surplus of N is a power of two):
         # float sums of normalised values are then exact (used for the linear observation)
@@ -395,7 +399,13 @@ class Case:
         if self.np_seed is not None:
             np.random.seed(self.np_seed)
         try:
-            self.env = M.ICG_Gym(game, self.genobj, [M.Coalition(c) for c in self.initial], M.GAPS[self.gap], self.budget)
+            # the step budget in the forms callers pass it: Python int, or a numpy integer (an element of np.arange, rng.integers(…))
+            budget_arg = self.budget
+            if isinstance(self.budget, int) and not isinstance(self.budget, bool):
+                form = _FORM_COUNTER[0] % 3
+                budget_arg = [self.budget, np.int64(self.budget), np.int32(self.budget)][form]
+                self.res.count(f"budget-form:{type(budget_arg).__name__}")
+            self.env = M.ICG_Gym(game, self.genobj, [M.Coalition(c) for c in self.initial], M.GAPS[self.gap], budget_arg)
             self.alive = True
         except Exception as e:
             ans = err_kind(e)
